@@ -314,6 +314,22 @@ func (e *Engine) Load(name string) (*Template, error) {
 				errorDetails.WriteString(fmt.Sprintf("  %d) %s\n", i+1, err.Error()))
 			}
 
+			// "Not found" only describes the case in which every loader reported that it
+			// does not have the template. A loader that failed for another reason (I/O
+			// error, permission problem, ...) is the cause of this failure and stays
+			// reachable through errors.Is / errors.As.
+			var causes []error
+			for _, err := range loaderErrors {
+				if !errors.Is(err, ErrTemplateNotFound) {
+					causes = append(causes, err)
+				}
+			}
+			if len(causes) > 0 {
+				loadErr := fmt.Errorf("failed to load template '%s': %w", name, errors.Join(causes...))
+				LogError(loadErr, errorDetails.String())
+				return nil, loadErr
+			}
+
 			LogError(ErrTemplateNotFound, errorDetails.String())
 			return nil, fmt.Errorf("%w: %s", ErrTemplateNotFound, errorDetails.String())
 		}
